@@ -130,7 +130,7 @@ CHECKS["C11"] = {
 CHECKS["C13"] = {
     "technique": "runtime monitoring: generated programs assign a fresh value through every spelling of a name and print every spelling in every scope; the printed values (which spellings share a variable) and the checker's accept/reject verdict are judged by an executable model of the name-resolution rules",
     "text": "Programs with 0-3 DEFtype statements (random letter ranges, also in the middle of the main module), global DIM x AS type, DIM SHARED (extended and compact), CONST, bare DIM, 0-2 SUBs with bare / suffixed / extended parameters, local DIM AS and local CONST; ten base names that share first letters, each use in random letter case with no suffix or one of the five suffixes; every scope prints all 60 spellings, the main module again after the calls; a quarter of the programs carry one use that must be rejected (other suffix on an extended name, second DIM of a name, assignment to a CONST).",
-    "note": "Trusts the resolution model in rv/checks/c13.py (from the property statement and the README). Not generated: function-result names, a foreign suffix on a CONST name, DEFtype after the first SUB, arrays and records.",
+    "note": "Trusts the resolution model in rv/checks/c13.py (from the property statement and the README). Function-result names: half of the programs define one or two FUNCTIONs with a bare name and a bare parameter (typed by the DEFtype table), called bare or with the matching suffix and assigned inside under either spelling. Not generated: a variable or parameter with the base name of a function, a foreign suffix on a CONST or function name, DEFtype after the first SUB, arrays and records.",
     "design": "DESIGN.md section 2 C13",
 }
 NOT_BUILT_REASON = "check not built yet in this round (design in DESIGN.md section 2); nothing is claimed for it"
